@@ -491,6 +491,31 @@ func c13Many(w *run.Worker) {
 			c13ExecP(w, "many-use-calls", p)
 		}
 	}
+	// what a used script prints appears where it runs, between the caller's own lines; what it decodes is its own
+	for shape := 0; shape < 4; shape++ {
+		if !w.Take() {
+			continue
+		}
+		pf := func(s string) *rt.Node { return rt.Call("printf", S(s+" %v\n"), Id("k")) }
+		doc := `{"n": 1, "l": [1, 2]}`
+		p := &Prog{Main: "a.p", Point: c13Point(), Capture: true}
+		switch shape {
+		case 0:
+			p.Scripts = map[string][]*rt.Node{"a.p": {pf("a1"), use("b.p"), pf("a2")}, "b.p": {pf("b1"), rt.Call("add_key", Id("k"), I(2)), use("c.p"), pf("b2")}, "c.p": {pf("c")}}
+		case 1:
+			p.Scripts = map[string][]*rt.Node{"a.p": {rt.ForIn("i", rt.List(I(1), I(2)), rt.Block(use("b.p"), pf("a"))), tail()}, "b.p": {pf("b"), rt.Call("exit"), pf("never")}}
+		case 2: // caller and callee decode the same text; the callee changes its document in place
+			p.Scripts = map[string][]*rt.Node{
+				"a.p": {rt.Assign("=", Id("j"), rt.Call("load_json", S(doc))), use("b.p"), rt.Call("p", Id("j")), rt.Assign("=", rt.Index("j", S("n")), I(5)), use("b.p"), rt.Call("p", Id("j"))},
+				"b.p": {rt.Assign("=", Id("d"), rt.Call("load_json", S(doc))), rt.Call("p", Id("d")), rt.Assign("=", rt.Index("d", S("n")), I(2)), rt.Assign("=", rt.Index("d", S("l"), I(0)), S("changed")), use("c.p")},
+				"c.p": {rt.Assign("=", Id("e"), rt.Call("load_json", S(doc))), rt.Call("p", Id("e"))}}
+		case 3: // the document comes from the shared point
+			p.Scripts = map[string][]*rt.Node{
+				"a.p": {rt.Call("add_key", Id("_"), S(doc)), rt.Assign("=", Id("j"), rt.Call("load_json", Id("_"))), rt.Assign("=", rt.Index("j", S("l"), I(1)), S("by a")), use("b.p"), rt.Call("p", Id("j"))},
+				"b.p": {rt.Assign("=", Id("j"), rt.Call("load_json", Id("_"))), rt.Call("p", Id("j")), rt.Assign("=", rt.Index("j", S("n")), I(2))}}
+		}
+		c13ExecP(w, "output-and-documents-of-used-scripts", p)
+	}
 	for _, depth := range []int{5, 17, 40} {
 		for end := 0; end < 3; end++ {
 			if !w.Take() {
